@@ -1283,6 +1283,19 @@ impl ValueTable {
 		}
 	}
 
+	pub(crate) fn verif_stats(&self) -> Option<(u8, u64, u64, u64, u16)> {
+		if self.verif_is_default() {
+			return None
+		}
+		Some((
+			self.id.size_tier(),
+			self.filled.load(Ordering::SeqCst),
+			self.written.load(Ordering::SeqCst),
+			self.last_removed.load(Ordering::SeqCst),
+			self.entry_size,
+		))
+	}
+
 	pub(crate) fn verif_is_default(&self) -> bool {
 		self.filled.load(Ordering::SeqCst) == 1 &&
 			self.written.load(Ordering::SeqCst) == 1 &&
